@@ -23,8 +23,34 @@ func q(s string) string {
 }
 
 func typeKey(t types.Type) string {
-	return types.TypeString(t, func(p *types.Package) string { return p.Path() })
+	return types.TypeString(unaliasDeep(t), func(p *types.Package) string { return p.Path() })
 }
+
+// unaliasDeep removes type aliases (any = interface{}, byte, rune stay basic) so that two spellings
+// of one type give one heap-region key.
+func unaliasDeep(t types.Type) types.Type {
+	switch u := t.(type) {
+	case *types.Alias:
+		return unaliasDeep(types.Unalias(u))
+	case *types.Pointer:
+		return types.NewPointer(unaliasDeep(u.Elem()))
+	case *types.Slice:
+		return types.NewSlice(unaliasDeep(u.Elem()))
+	case *types.Array:
+		return types.NewArray(unaliasDeep(u.Elem()), u.Len())
+	case *types.Map:
+		return types.NewMap(unaliasDeep(u.Key()), unaliasDeep(u.Elem()))
+	case *types.Chan:
+		return types.NewChan(u.Dir(), unaliasDeep(u.Elem()))
+	case *types.Interface:
+		if u.Empty() {
+			return emptyIface
+		}
+	}
+	return t
+}
+
+var emptyIface = types.NewInterfaceType(nil, nil)
 
 const preamble = `(set-option :produce-models true)
 (set-logic ALL)
